@@ -80,7 +80,14 @@ func (s *KeyStore) importKeyRing(newRingData *asn1.KeyRing, delegate api.KeyRing
 		// A key ring without keys has nothing to lose: it is what an interrupted import (or
 		// opening a missing key ring for writing) leaves behind. Import as into a new one.
 		if len(keyRing.data.Keys) == 0 {
-			return keyRing.importASN1(newRingData)
+			// The store is not locked between this look and the write: the import is applied
+			// only if the key ring still has no keys once the store is locked for writing.
+			err := keyRing.importASN1(newRingData, true)
+			if err == ErrKeyRingExists {
+				// another writer was faster: a conflict like any other
+				return s.importKeyRing(newRingData, delegate)
+			}
+			return err
 		}
 		// If the keystore successfully returned an existing key ring with the same name,
 		// we have to resolve this conflict somehow. Present both current and new versions
@@ -90,7 +97,7 @@ func (s *KeyStore) importKeyRing(newRingData *asn1.KeyRing, delegate api.KeyRing
 		case api.ImportOverwrite:
 			// Forget whatever we just read and import into a clean key ring.
 			keyRing = newKeyRing(s, string(newRingData.Purpose))
-			err := keyRing.importASN1(newRingData)
+			err := keyRing.importASN1(newRingData, false)
 			if err != nil {
 				return err
 			}
@@ -107,7 +114,13 @@ func (s *KeyStore) importKeyRing(newRingData *asn1.KeyRing, delegate api.KeyRing
 		if err != nil {
 			return err
 		}
-		err = keyRing.importASN1(newRingData)
+		// The key ring did not exist when we looked, but the store was not locked since then.
+		// The import is applied only if the key ring still has no keys once the store is locked
+		// for writing; otherwise another writer was faster and this is a conflict like any other.
+		err = keyRing.importASN1(newRingData, true)
+		if err == ErrKeyRingExists {
+			return s.importKeyRing(newRingData, delegate)
+		}
 		if err != nil {
 			return err
 		}
@@ -205,7 +218,9 @@ func (r *KeyRing) exportASN1(mode keystoreV1.ExportMode) (exported asn1.KeyRing,
 	return exported, nil
 }
 
-func (r *KeyRing) importASN1(ringData *asn1.KeyRing) error {
+// importASN1 replaces the content of the key ring with the imported keys.
+// With onlyIfEmpty the import fails with ErrKeyRingExists if the stored key ring has keys.
+func (r *KeyRing) importASN1(ringData *asn1.KeyRing, onlyIfEmpty bool) error {
 	// Make properly encrypted copies of key data.
 	newKeys := make([]asn1.Key, len(ringData.Keys))
 	for i := range ringData.Keys {
@@ -215,10 +230,17 @@ func (r *KeyRing) importASN1(ringData *asn1.KeyRing) error {
 		}
 		newKeys[i] = *newKey
 	}
+	pushed := 1
+	if onlyIfEmpty {
+		r.pushTX(&txExpectNoKeys{})
+		pushed++
+	}
 	r.pushTX(&txSetKeys{newKeys: newKeys, current: ringData.Current})
 	err := r.store.syncKeyRing(r)
 	if err != nil {
-		r.popTX()
+		for ; pushed > 0; pushed-- {
+			r.popTX()
+		}
 	}
 	return err
 }
